@@ -2,7 +2,7 @@ package main
 
 // C16 — copy include/exclude selects exactly the reference set and creates no extra directories.
 //
-//   kind 1601: input  = (srcView dstView include exclude mode name)
+//   kind 1601: input  = (srcView dstView include exclude mode name [alwaysReplace])
 //                mode 0: Copy(srcRoot, "/", dstRoot, "/") with CopyDirContents
 //                mode 1: Copy(srcRoot, name, dstRoot, "/")       (name = a top-level entry of srcView;
 //                        a directory lands at dstRoot/name, patterns are relative to it; a
@@ -68,7 +68,7 @@ func c16SetRootMeta(dir string) error {
 }
 
 // the real copier, never hanging, never panicking
-func c16Copy(srcRoot, src, dstRoot, dst string, inc, exc []string, dirContents, wild bool) int {
+func c16Copy(srcRoot, src, dstRoot, dst string, inc, exc []string, dirContents, wild, replace bool) int {
 	ch := make(chan int, 1)
 	go func() {
 		defer func() {
@@ -76,7 +76,8 @@ func c16Copy(srcRoot, src, dstRoot, dst string, inc, exc []string, dirContents, 
 				ch <- 0xfe
 			}
 		}()
-		ci := fscopy.CopyInfo{IncludePatterns: inc, ExcludePatterns: exc, CopyDirContents: dirContents, AllowWildcards: wild}
+		ci := fscopy.CopyInfo{IncludePatterns: inc, ExcludePatterns: exc, CopyDirContents: dirContents, AllowWildcards: wild,
+			AlwaysReplaceExistingDestPaths: replace}
 		err := fscopy.Copy(context.Background(), srcRoot, src, dstRoot, dst, fscopy.WithCopyInfo(ci))
 		ch <- c16ErrClass(err)
 	}()
@@ -158,6 +159,7 @@ func run1601(in Sx) (out Sx) {
 	srcView, dstView := SxView(in.L[0]), SxView(in.L[1])
 	inc, exc := sxStrings(in.L[2]), sxStrings(in.L[3])
 	mode, name := in.L[4].Int(), in.L[5].Str()
+	replace := len(in.L) > 6 && in.L[6].IsTrue()
 
 	work, srcRoot, dstRoot, err := c16Setup("c16-", srcView, dstView)
 	defer os.RemoveAll(work)
@@ -174,7 +176,7 @@ func run1601(in Sx) (out Sx) {
 	case 2:
 		src, dirContents, wild = "*", false, true
 	}
-	cls := c16Copy(srcRoot, src, dstRoot, "/", inc, exc, dirContents, wild)
+	cls := c16Copy(srcRoot, src, dstRoot, "/", inc, exc, dirContents, wild, replace)
 	if cls == 0xffff {
 		return L(N(0xffff))
 	}
@@ -251,7 +253,7 @@ func run1602(in Sx) (out Sx) {
 	old := syscall.Umask(022)
 	defer syscall.Umask(old)
 
-	cls := c16Copy(srcRoot, "/", dstRoot, "/", inc, exc, true, false)
+	cls := c16Copy(srcRoot, "/", dstRoot, "/", inc, exc, true, false, false)
 	if cls == 0xffff {
 		return L(N(0xffff))
 	}
@@ -368,11 +370,22 @@ func c16Clone(n *MNode) *MNode {
 // conflict: one entry has the other type
 func c16DstFrom(r *Rng, src []*MNode, conflict bool) []*MNode {
 	conflicted := !conflict
+	var linked []*MNode // source directories whose place is taken by a symlink to zd/<n>
 	var rec func(kids []*MNode, depth int) []*MNode
 	rec = func(kids []*MNode, depth int) []*MNode {
 		var out []*MNode
 		for _, k := range kids {
 			if !r.Chance(55) {
+				continue
+			}
+			if conflict && k.IsDir() && r.Chance(30) {
+				// a symlink where the source has a directory; it leads to a real directory of the
+				// destination that holds entries named like the source directory's children
+				linked = append(linked, k)
+				target := strings.Repeat("../", depth) + fmt.Sprintf("zd/l%d", len(linked))
+				out = append(out, &MNode{Name: k.Name, Stat: &types.Stat{Mode: uint32(os.ModeSymlink | 0777), Linkname: target,
+					Size: int64(len(target)), ModTime: 1500000000e9}})
+				conflicted = true
 				continue
 			}
 			c := &MNode{Name: k.Name, Stat: k.Stat.CloneVT()}
@@ -412,9 +425,27 @@ func c16DstFrom(r *Rng, src []*MNode, conflict bool) []*MNode {
 		return out
 	}
 	out := rec(src, 0)
-	if r.Chance(50) {
-		out = append(out, &MNode{Name: "zd", Stat: &types.Stat{Mode: uint32(os.ModeDir | 0711), Gid: 4, ModTime: 1500000000e9},
-			Kids: []*MNode{{Name: "q", Stat: &types.Stat{Mode: 0644, Size: 1, ModTime: 1500000000e9}, Content: []byte("q")}}})
+	if r.Chance(50) || len(linked) > 0 {
+		zd := &MNode{Name: "zd", Stat: &types.Stat{Mode: uint32(os.ModeDir | 0711), Gid: 4, ModTime: 1500000000e9},
+			Kids: []*MNode{{Name: "q", Stat: &types.Stat{Mode: 0644, Size: 1, ModTime: 1500000000e9}, Content: []byte("q")}}}
+		for i, k := range linked {
+			ld := &MNode{Name: fmt.Sprintf("l%d", i+1), Stat: &types.Stat{Mode: uint32(os.ModeDir | 0755), ModTime: 1500000000e9}}
+			for _, kk := range k.Kids {
+				c := &MNode{Name: kk.Name, Stat: &types.Stat{Mode: 0640, Uid: 8, ModTime: 1500000000e9}}
+				if kk.IsDir() && r.Bool() {
+					c.Stat.Mode = uint32(os.ModeDir | 0750)
+					for _, k3 := range kk.Kids {
+						c.Kids = append(c.Kids, &MNode{Name: k3.Name, Stat: &types.Stat{Mode: 0600, Size: 1, ModTime: 1500000000e9}, Content: []byte("3")})
+					}
+				} else {
+					c.Content = []byte("outside-of-the-copied-tree")
+					c.Stat.Size = int64(len(c.Content))
+				}
+				ld.Kids = append(ld.Kids, c)
+			}
+			zd.Kids = append(zd.Kids, ld)
+		}
+		out = append(out, zd)
 	}
 	root := &MNode{Name: "", Stat: &types.Stat{Mode: uint32(os.ModeDir | 0755)}, Kids: out}
 	sortKids(root)
@@ -597,7 +628,7 @@ func genC16(g *Gen) {
 		dcls := "empty"
 		switch x := r.Intn(100); {
 		case x < 45:
-		case x < 92:
+		case x < 78:
 			dst, dcls = c16DstFrom(r, view, false), "populated"
 		default:
 			dst, dcls = c16DstFrom(r, view, true), "conflict"
@@ -606,7 +637,8 @@ func genC16(g *Gen) {
 		for _, p := range viewPaths(dst) {
 			dstHad[p] = true
 		}
-		in := L(ViewSx(view), ViewSx(dst), stringsSx(inc), stringsSx(exc), NI(mode), S(name))
+		replace := len(dst) > 0 && r.Chance(40)
+		in := L(ViewSx(view), ViewSx(dst), stringsSx(inc), stringsSx(exc), NI(mode), S(name), Bool(replace))
 		out := run1601(in)
 		var sh c16Shape
 		if mode == 2 {
@@ -621,6 +653,9 @@ func genC16(g *Gen) {
 			sh = c16Classify(srcRel, name, inc, exc, out, dstHad)
 		}
 		cls := fmt.Sprintf("%s/%s/mode%d", tag, dcls, mode)
+		if replace {
+			cls += "/always-replace"
+		}
 		if !sh.ok {
 			cls += "/err"
 		}
